@@ -79,18 +79,30 @@ Fixpoint span_opts (ls : list str) : list str * list str :=
       else ([], ls)
   end.
 
-(* _parse_directive_options: (remaining content, raw option block) *)
-Definition parse_directive_options (content : str) : str * option str :=
+Fixpoint count_occ_N (c : N) (s : str) : nat :=
+  match s with
+  | [] => O
+  | x :: r => if x =? c then S (count_occ_N c r) else count_occ_N c r
+  end.
+
+(* _parse_directive_options: (lines of the remaining content - always a suffix of
+   content.splitlines() -, raw option block) *)
+Definition parse_directive_options (content : str) : list str * option str :=
+  let content_lines := splitlines content in
   if startswith content dashes3 then
-    let content1 := join nl (tl (splitlines content)) in
+    let content_lines := tl content_lines in
+    let content1 := join nl content_lines in
     match search_dashes content1 true 0 with
-    | Some (s, e) => (skipn (S e) content1, Some (firstn s content1))
+    | Some (s, e) =>
+        let options_block := firstn s content1 in
+        (* the (whole) closing delimiter line ends the block *)
+        (skipn (S (count_occ_N c_nl options_block)) content_lines, Some options_block)
     | None => ([], Some content1)
     end
   else if startswith (lstrip content) [c_colon] then
-    let '(y, rest) := span_opts (splitlines content) in
-    (join nl rest, Some (join nl y))
-  else (content, None).
+    let '(y, rest) := span_opts content_lines in
+    (rest, Some (join nl y))
+  else (content_lines, None).
 
 Definition parse_directive_arguments (cls : dclass) (arg_text : str) : res (list str) :=
   let arguments := split_ws arg_text in
@@ -106,8 +118,7 @@ Definition is_nil {A} (l : list A) : bool := match l with [] => true | _ => fals
 Definition parse_directive_text (cls : dclass) (first_line content : str) : res parsed :=
   let '(body0, off0, ob) :=
     if d_optspec cls then
-      let '(c', ob) := parse_directive_options content in
-      let bl := splitlines c' in
+      let '(bl, ob) := parse_directive_options content in
       (bl, (length (splitlines content) - length bl)%nat, ob)
     else (splitlines content, O, None) in
   let has_opts := match ob with Some _ => true | None => false end in
@@ -197,6 +208,11 @@ Definition directive_content (k : fkind) (body_lines : list str) : str :=
   let c := unlines body_lines in
   if is_colon k && startswith c colons3 then nl ++ c else c.   (* render_colon_fence *)
 
+(* render_colon_fence: one line is prepended to a content that starts with ":::"; it does not
+   count towards the line offset of the body *)
+Definition prepended_lines (colon : bool) (content : str) : nat :=
+  if colon && startswith content colons3 then 1%nat else 0%nat.
+
 Fixpoint nested_calls (w : wrapper) (X : list str) (pos : nat)
   : res (list (bool * str * nat)) :=
   match w with
@@ -206,7 +222,8 @@ Fixpoint nested_calls (w : wrapper) (X : list str) (pos : nat)
       let title_call := match titled, p_args p with
                         | true, a :: _ => [(true, a, pos)]
                         | _, _ => [] end in
-      Ok (title_call ++ [(false, join nl (p_body p), (pos + p_off p)%nat)])
+      Ok (title_call ++ [(false, join nl (p_body p),
+                          (pos + (p_off p - prepended_lines (is_colon k) (unlines (opt_lines o ++ X))))%nat)])
   | Nest o i =>
       do c <- nested_calls o (print_lines i X) pos;
       match last_opt c with
